@@ -201,8 +201,15 @@ def check_config(rep, prog):
     # ---- K4 saturating add
     p = "retrofire_core::<math::color::Color<[u8; DIM], Sp> as math::space::Affine>::add"
     diff = ("adt", "retrofire_core::math::vec::Vector", "Vector", [("array", [sy("d0"), sy("d1"), sy("d2")]), ("tuple", [])])
-    it, r = run(p, [S.ref_to(color(["c0", "c1", "c2"])), S.ref_to(diff)], env={"DIM": 3})
-    cs = chans(it, r)
+    def run_add(orc):
+        it_ = S.interp(prog, models=MODELS, oracle=orc)
+        r_ = A.deref_all(it_, it_.call_body(prog.body(p), [S.ref_to(color(["c0", "c1", "c2"])), S.ref_to(diff)], env={"DIM": 3}))
+        return chans(it_, r_)
+    try:
+        paths4 = S.explore(run_add, max_paths=16)        # `if d < 0 { .. } else { .. }` on a symbolic difference forks
+    except (A.Undecided, A.Panic) as e:
+        raise common.Infra("C16: %s could not be evaluated symbolically (%s)" % (p, e))
+    cs = paths4[0][1]
 
     def is_sat(v, i):
         if not (isinstance(v, tuple) and v[0] == "symop" and v[1] == "cast:u8"):
@@ -211,8 +218,8 @@ def check_config(rep, prog):
         if not (isinstance(cl, tuple) and cl[0] == "symop" and cl[1] == "iclamp" and cl[3] == (0, 255)):
             return False
         return S.to_poly(cl[2]) == {("c%d" % i,): Fraction(1), ("d%d" % i,): Fraction(1)}
-    ok4 = len(cs) == 3 and all(is_sat(v, i) for i, v in enumerate(cs))
-    if not ok4 and len(cs) == 3:
+    ok4 = len(paths4) == 1 and len(cs) == 3 and all(is_sat(v, i) for i, v in enumerate(cs))
+    if not ok4 and all(len(c_) == 3 for _t, c_ in paths4):
         # another formula: refuted by a channel / difference pair on which it is not clamp(c + d, 0, 255), or left undecided
         def ev(v, pt):
             if isinstance(v, bool):
@@ -240,11 +247,26 @@ def check_config(rep, prog):
                         raise ValueError(op)
                     return a_ if (a_ is not None and lo_ <= a_ <= hi_) else None
                 b_ = ev(v[3], pt) if len(v) > 3 and v[3] is not None else None
+                if op.startswith("unsigned_abs"):
+                    return None if a_ is None else abs(a_)
                 if op == "unwrap_or":
                     return a_ if a_ is not None else b_
                 if a_ is None or b_ is None:
                     return None
                 I32 = (-2 ** 31, 2 ** 31 - 1)
+                if ":" in op and op.split(":")[0] in ("saturating_add", "saturating_sub", "wrapping_add", "wrapping_sub", "unsigned_abs", "abs_diff"):
+                    nm_, ty_ = op.split(":")
+                    bits_ = {"u8": 8, "i8": 8, "u16": 16, "i16": 16, "u32": 32, "i32": 32, "u64": 64, "i64": 64, "usize": 64, "isize": 64}[ty_]
+                    lo_, hi_ = (-(1 << (bits_ - 1)), (1 << (bits_ - 1)) - 1) if ty_.startswith("i") else (0, (1 << bits_) - 1)
+                    if nm_ == "unsigned_abs":
+                        return abs(a_)
+                    r_ = {"saturating_add": a_ + b_, "wrapping_add": a_ + b_, "saturating_sub": a_ - b_, "wrapping_sub": a_ - b_, "abs_diff": abs(a_ - b_)}[nm_]
+                    if nm_.startswith("saturating"):
+                        return min(max(r_, lo_), hi_)
+                    if nm_.startswith("wrapping"):
+                        r_ &= (1 << bits_) - 1
+                        return r_ - (1 << bits_) if ty_.startswith("i") and r_ >> (bits_ - 1) else r_
+                    return r_
                 if op == "Add":
                     return a_ + b_
                 if op == "Sub":
@@ -261,13 +283,20 @@ def check_config(rep, prog):
         wit = None
         try:
             for c_ in (0, 10, 200, 255):
-                for d_ in (-300, -20, 0, 20, 300, 2 ** 31 - 1, -2 ** 31):
+                for d_ in (-300, -256, -20, 0, 20, 256, 300, 510, 2 ** 31 - 1, -2 ** 31):
                     pt = {"c0": c_, "c1": c_, "c2": c_, "d0": d_, "d1": d_, "d2": d_}
-                    for i_, v_ in enumerate(cs):
-                        got_ = ev(v_, pt)
-                        want_ = min(max(c_ + d_, 0), 255)
-                        if got_ != want_ and wit is None:
-                            wit = (c_, d_, got_, want_)
+                    for tr_, cs_ in paths4:
+                        # the path this channel / difference pair takes (decisions on other channels' differences coincide: all three are equal)
+                        if not all({"Lt": ev(a_, pt) < ev(b_, pt), "Le": ev(a_, pt) <= ev(b_, pt), "Gt": ev(a_, pt) > ev(b_, pt), "Ge": ev(a_, pt) >= ev(b_, pt),
+                                    "Eq": ev(a_, pt) == ev(b_, pt), "Ne": ev(a_, pt) != ev(b_, pt)}[op_] == ans_ for op_, a_, b_, ans_ in tr_):
+                            continue
+                        for i_, v_ in enumerate(cs_):
+                            got_ = ev(v_, pt)
+                            if got_ is None:
+                                raise ValueError("channel %d has no value for c = %d, d = %d" % (i_, c_, d_))
+                            want_ = min(max(c_ + d_, 0), 255)
+                            if got_ != want_ and wit is None:
+                                wit = (c_, d_, got_, want_)
         except ValueError as e:
             raise common.Infra("C16.K4: Color<u8> + diff is computed by a formula the rule cannot evaluate (%s); rule needs re-confirmation" % e)
         if wit is None:
@@ -384,12 +413,63 @@ def sector_rules(rep, prog):
                 raise common.Infra("C16.K6: could not classify the channels of the %s sextant arms (%s)" % (label, table))
 
 
+def hue_value_rules(rep, prog):
+    """K6 (values): the float HSL -> RGB conversion evaluated at hue constants that are exact in binary - 0, 1/8, 1/4, 3/8, 1/2, 5/8, 3/4,
+    7/8 and 1 - with saturation and lightness symbolic. With m and c read off the code's own result at hue 0 ((c + m, m, m), and
+    m + c/2 = l), every channel must be m + k c with k from the standard table (x = c (1 - |6h mod 2 - 1|)); hue 1 must give what hue 0
+    gives. Decides the in-sextant value of the middle channel and the wrap at hue 1, which the permutation table (above) does not."""
+    from . import poly as PL
+    cfg = prog.config
+    path = COL + "::<[f32; 3], math::color::Hsl>::to_rgb"
+    body = prog.body(path)
+
+    def at(h):
+        it = S.interp(prog, models=MODELS, oracle=lambda op, a_, b_: True if not all(isinstance(x, tuple) and x[0] == "f" for x in (a_, b_)) else None)
+        try:
+            r = A.deref_all(it, it.call_body(body, [color([("f", h), "s", "l"])]))
+            return [S.to_poly(A.deref_all(it, x)) for x in S.components(it, r)]
+        except (A.Undecided, A.Panic, S.NotPolynomial) as e:
+            raise common.Infra("C16.K6: the float to_rgb could not be evaluated at hue %g (%s)" % (h, e))
+
+    def close(pa, pb):
+        keys = set(pa) | set(pb)
+        return all(abs(float(pa.get(k, 0)) - float(pb.get(k, 0))) < 1e-5 for k in keys)
+
+    def lin(m_, c_, k):
+        return PL.padd(m_, {mono: co * Fraction(k).limit_denominator(64) for mono, co in c_.items()})
+    r0 = at(0.0)
+    if len(r0) != 3:
+        raise common.Infra("C16.K6: the float to_rgb does not return three channels")
+    m_ = r0[2]
+    c_ = PL.padd(r0[0], {mono: -co for mono, co in m_.items()})
+    sane = close(r0[1], m_) and close(lin(m_, c_, 0.5), {("l",): Fraction(1)}) and any(abs(float(co)) > 1e-9 for co in c_.values())
+    rep.inst("C16.K6", "float Hsl::to_rgb at hue 0 is (c + m, m, m) with m + c/2 = l: %s" % sane, config=cfg)
+    if not sane:
+        rep.violate("C16.K6", "K6|hue-zero", body.where(), "Color3f<Hsl>::to_rgb at hue 0 is not (c + m, m, m) with m = l - c/2 (pure red at full saturation)", config=cfg)
+        return
+    table = {0.125: (1, .75, 0), 0.25: (.5, 1, 0), 0.375: (0, 1, .25), 0.5: (0, 1, 1), 0.625: (0, .25, 1), 0.75: (.5, 0, 1), 0.875: (1, 0, .75), 1.0: (1, 0, 0)}
+    bad = []
+    for h, ks in table.items():
+        got = at(h)
+        if not (len(got) == 3 and all(close(g, lin(m_, c_, k)) for g, k in zip(got, ks))):
+            def coef(g):
+                # the multiple of c in this channel, read off the coefficient of s
+                cs_ = float(c_.get(("s",), 0))
+                return round((float(g.get(("s",), 0)) - float(m_.get(("s",), 0))) / cs_, 3) if cs_ else "?"
+            bad.append("hue %g gives m + c * %s, expected m + c * %s" % (h, tuple(coef(g) for g in got), ks))
+    rep.inst("C16.K6", "float Hsl::to_rgb at hues 1/8 .. 7/8 and 1 (saturation, lightness symbolic): channels = m + c * (standard table value): %s" % (not bad), config=cfg)
+    if bad:
+        rep.violate("C16.K6", "K6|hue-values", body.where(), "Color3f<Hsl>::to_rgb does not realise the standard hue ramp: %s%s" % (
+            "; ".join(bad[:2]), " (hue 1 must equal hue 0)" if any(b.startswith("hue 1 ") for b in bad) else ""), config=cfg)
+
+
 def check(rep, args):
     configs = ["ws"] if rep.tier == "quick" else common.ALL_CONFIGS
     rep.configs = configs
     for cfg in configs:
         rep.guard(check_config, rep, facts.program(cfg))
         rep.guard(sector_rules, rep, facts.program(cfg))
+        rep.guard(hue_value_rules, rep, facts.program(cfg))
         from .rules_C16_int import int_panic_rules
         rep.guard(int_panic_rules, rep, facts.program(cfg))
     cov = {
